@@ -11,6 +11,7 @@ import (
 	"github.com/streamingfast/bstream/forkable"
 	pbbstream "github.com/streamingfast/bstream/pb/sf/bstream/v1"
 	pbsubstreamsrpc "github.com/streamingfast/substreams/pb/sf/substreams/rpc/v2"
+	pbsubstreams "github.com/streamingfast/substreams/pb/sf/substreams/v1"
 	"github.com/streamingfast/substreams/pipeline"
 	"github.com/streamingfast/substreams/service"
 
@@ -97,6 +98,10 @@ func runForkHistory(c *fw.Case, prop string) {
 	}
 	H := 5 + c.R.Intn(4)
 	start := init + uint64(c.R.Intn(int(base-init)+1))
+	if prop == "C03" && c.R.Intn(4) == 0 { // the request starts INSIDE the fork zone: reorgs may reach below its start block
+		start = base + 1 + uint64(c.R.Intn(H-1))
+		c.Count("histories_starting_inside_the_fork_zone", 1)
+	}
 	stop := base + uint64(H) + 1
 	tree := sim.GenForkTree(c.R, base, H)
 	s.cl.Head = base
@@ -318,6 +323,7 @@ func runForkHistory(c *fw.Case, prop string) {
 		payload []byte
 	}
 	var client []held
+	var belowStartUndo *pbsubstreams.BlockRef
 	deltasOf := map[string][]*pbsubstreamsrpc.StoreDelta{}
 	undoCount := map[string]int{}
 	undos := 0
@@ -342,6 +348,16 @@ func runForkHistory(c *fw.Case, prop string) {
 			var payload []byte
 			if d.Output != nil && d.Output.MapOutput != nil {
 				payload = d.Output.MapOutput.Value
+			}
+			if belowStartUndo != nil {
+				if d.Clock.Number == belowStartUndo.Number+1 && d.Clock.Number < start {
+					// recorded known finding: the junction is neither held by the client nor the block before its first, and
+					// the blocks between the junction and the start block are then delivered although they are below the start block
+					viol("client/reorg-below-start-block/blocks-below-start-delivered", fmt.Sprintf("request starting at block %d: a reorg reached below it; the undo signal designates block %d %s (not held by the client, nor the block before its first) and block %d %s, below the start block, was then delivered", start, belowStartUndo.Number, belowStartUndo.Id, d.Clock.Number, d.Clock.Id), wit(nil))
+					return
+				}
+				viol("client/undo-designates-unknown-block", fmt.Sprintf("undo signal with last valid block %d %s which the client does not hold, and the stream then goes on with block %d %s: the client cannot link it to anything it holds (client holds %v)", belowStartUndo.Number, belowStartUndo.Id, d.Clock.Number, d.Clock.Id, heldIDs(client, func(h held) string { return h.id })), wit(nil))
+				return
 			}
 			for _, h := range client {
 				if h.num >= d.Clock.Number {
@@ -378,6 +394,11 @@ func runForkHistory(c *fw.Case, prop string) {
 				if lv.Number+1 == first {
 					ok = true
 				}
+			}
+			if !ok && lv.Number+1 < start {
+				// a reorg reaching below the request's start block: decided by what is delivered next (see the data case)
+				belowStartUndo = lv
+				ok = true
 			}
 			if !ok {
 				viol("client/undo-designates-unknown-block", fmt.Sprintf("undo signal with last valid block %d %s which the client does not hold (client holds %v)", lv.Number, lv.Id, heldIDs(client, func(h held) string { return h.id })), wit(nil))
@@ -417,7 +438,11 @@ func runForkHistory(c *fw.Case, prop string) {
 	for n := start; n <= base; n++ {
 		chain = append(chain, sim.BlockID(n))
 	}
-	chain = append(chain, tree.Path(finalTop)...)
+	for _, id := range tree.Path(finalTop) {
+		if tree.Node(id).Num >= start {
+			chain = append(chain, id)
+		}
+	}
 	// in production mode a back-filled block (below the hand-off) whose reference output is empty may be omitted (C01 rule)
 	ci := 0
 	for _, id := range chain {
@@ -731,7 +756,9 @@ func runForkHistory(c *fw.Case, prop string) {
 			rq2.CursorResolver = resolver
 			rq2.LinearFeed = feedCanon(final2, stop2+2)
 			t2 := feedCanon(stop2+2, stop2+2)
-			rq2.Tier2Feed = func(ctx context.Context, h bstream.Handler, from, stopNum uint64) error { return t2(ctx, h, from, stopNum, "") }
+			rq2.Tier2Feed = func(ctx context.Context, h bstream.Handler, from, stopNum uint64) error {
+				return t2(ctx, h, from, stopNum, "")
+			}
 			rq2.OrderSeed = 1 + c.R.Int63n(1<<40)
 			pl2, err := s.cl.PlanFor(rq2)
 			if err != nil || pl2.KnownHangShape() || !(pl2.Details.ResolvedStartBlockNum < pl2.Details.LinearHandoffBlockNum && pl2.Details.LinearHandoffBlockNum < stop2) {
